@@ -1,3 +1,4 @@
+import os
 from pathlib import Path
 from typing import Optional, Union
 
@@ -274,9 +275,15 @@ class SamplerCore:
             for owner, pbar in zip(pbar_owners, pbar_state):
                 owner.pbar = pbar
 
-        # Save to file
-        with open(path, "wb") as f:
+        # Save to file atomically: write a temporary file, force it to disk and
+        # only then rename it over the final name, so that a crash at any point
+        # never leaves a truncated checkpoint under the final name.
+        temp_path = path.with_name(path.name + ".temp")
+        with open(temp_path, "wb") as f:
             dill.dump(d, f)
+            f.flush()
+            os.fsync(f.fileno())
+        os.replace(temp_path, path)
 
     def load_sampler_state(self, path: Union[str, Path]):
         """Load state (replaces Sampler.load_state - 28 lines)."""
